@@ -16,7 +16,7 @@ from .common import set_interrupts, COMPONENTS_BASE, run_sim, new_sim, finish_ou
 
 PID = "C12"
 LEVEL = "exploration"
-BUDGET = {"quick": 50000, "thorough": 1500000}
+BUDGET = {"quick": 200000, "thorough": 4000000}
 RULE = (
     "sequential runs: history of <=15 ops over {await attr, take attr, await a taken awaitable, del attr, "
     "arm getter failure} on two instances, with/without lock type; oracle = model of the slot (getter runs iff "
